@@ -253,7 +253,27 @@ func genRule(r *core.Rand, idx int, m c16Method) RuleSpec {
 // grammar, and says why.
 func mutate(r *core.Rand, rule RuleSpec, m c16Method) RuleSpec {
 	rule.Path, rule.Want = "", nil
-	switch r.Intn(15) {
+	switch r.Intn(16) {
+	case 15:
+		// a field path that continues through a repeated field or a map (of
+		// messages): there is no one message to descend into - in a template
+		// variable, a body selector or a response_body selector
+		if m.Service == "larking.testpb.Complex" {
+			via := r.PickS("nested_list", "nested_map", "nested_map.value")
+			leaf := r.PickS("string_value", "int32_value", "bool_value")
+			switch r.Intn(3) {
+			case 0:
+				rule.Template += "/{" + via + "." + leaf + "}"
+			case 1:
+				rule.Verb, rule.Body = "post", via+"."+leaf
+			case 2:
+				rule.RespBody = via + "." + leaf
+			}
+			rule.Invalid = "field-path-through-list-or-map"
+			return rule
+		}
+		rule.Template += "/{no_such_field.x}"
+		rule.Invalid = "unknown-field"
 	case 14:
 		// something after the verb (the grammar ends a template with it)
 		if !strings.Contains(rule.Template, ":") {
